@@ -6,6 +6,7 @@ mod c05;
 mod c06;
 mod c07;
 mod c10;
+mod c12;
 mod c13;
 mod c17;
 mod c19;
@@ -82,6 +83,7 @@ fn main() {
         "C06" => c06::run(tier),
         "C07" => c07::run(tier),
         "C10" => c10::run(tier),
+        "C12" => c12::run(tier),
         "C13" => c13::run(tier),
         "C17" => c17::run(tier),
         "kat" => match kat::run_kats() {
